@@ -291,7 +291,11 @@ type c06Config struct {
 	Exclude      []c06Entry `json:"exclude,omitempty"`
 	// Form: 0 protojson of the Go struct, 1 hand-written YAML, 2 empty input
 	// (only for the all-default configuration), 3 protojson with the repeated
-	// fields in descending order and the first element repeated.
+	// fields in descending order and the first element repeated at the end
+	// ([2,1,2]; a single element: [1,1]), 4 protojson with the repeated fields in
+	// ascending order and every element written twice ([1,1,2,2]). The repeated
+	// fields denote sets (config.proto speaks of what is "supported"), so forms 3
+	// and 4 denote the same configuration as form 0.
 	Form int `json:"form"`
 }
 
@@ -340,14 +344,29 @@ func c06TriPtr(t int) *bool {
 }
 
 func c06Scramble(xs []int, form int) []int {
-	if form != 3 || len(xs) == 0 {
+	if len(xs) == 0 {
 		return xs
 	}
-	out := make([]int, 0, len(xs)+1)
-	for i := len(xs) - 1; i >= 0; i-- {
-		out = append(out, xs[i])
+	switch form {
+	case 3:
+		out := make([]int, 0, len(xs)+1)
+		for i := len(xs) - 1; i >= 0; i-- {
+			out = append(out, xs[i])
+		}
+		return append(out, out[0])
+	case 4:
+		out := make([]int, 0, 2*len(xs))
+		for _, x := range xs {
+			out = append(out, x, x)
+		}
+		return out
 	}
-	return append(out, out[0])
+	return xs
+}
+
+// c06HasLists: does the configuration write any repeated field at all?
+func c06HasLists(cfg *c06Config) bool {
+	return cfg.Versions != 0 || cfg.Protocols != 0 || cfg.Codecs != 0 || cfg.Compressions != 0 || cfg.StreamTypes != 0
 }
 
 func c06EntryMsg(e c06Entry) *conformancev1.ConfigCase {
@@ -879,6 +898,31 @@ func c06Judge(cfg *c06Config, got *c06Got) (fs []c06Finding, class string) {
 			fs = append(fs, c06Finding{"duplicate-case", fmt.Sprintf("%d produced cases are repeated", got.Duplicate)})
 		}
 	}
+	// (vi) a repeated field denotes a set: writing it in another order or with a
+	// repeated element is the same configuration and must have the same outcome
+	// (also where the documents leave the outcome itself open).
+	if cfg.Form == 3 || cfg.Form == 4 {
+		plain := c06Clone(cfg)
+		plain.Form = 0
+		ref := c06Run(&plain)
+		switch {
+		case ref.Panic != "":
+		case (ref.Err == "") != (got.Err == ""):
+			show := func(g *c06Got) string {
+				if g.Err != "" {
+					return fmt.Sprintf("error %q", g.Err)
+				}
+				return fmt.Sprintf("%d cases", g.N)
+			}
+			fs = append(fs, c06Finding{"outcome-depends-on-how-lists-are-written", fmt.Sprintf(
+				"lists in ascending order without repetition: %s; the same sets written with a repeated element / in another order: %s",
+				show(&ref), show(got))})
+		case ref.Err == "" && ref.Set != got.Set:
+			fs = append(fs, c06Finding{"outcome-depends-on-how-lists-are-written", fmt.Sprintf(
+				"lists in ascending order without repetition: %d cases; the same sets written with a repeated element / in another order: %d cases",
+				ref.N, got.N)})
+		}
+	}
 	rds := c06Readings(cfg)
 	var primary c06Outcome
 	for i, rd := range rds {
@@ -1183,6 +1227,8 @@ func c06ConfigKey(cfg *c06Config) string {
 		parts = append(parts, "as-empty-input")
 	case 3:
 		parts = append(parts, "lists-reordered-with-duplicate")
+	case 4:
+		parts = append(parts, "lists-with-every-element-twice")
 	}
 	return strings.Join(parts, "+")
 }
@@ -1434,7 +1480,7 @@ func c06Enumerate(thorough bool, visit func(family string, cfg *c06Config) bool)
 		for ps := 0; ps < 8; ps++ {
 			for _, ss := range []int{0, 1<<5 - 1} {
 				for fi := 0; fi < 9; fi++ {
-					for _, form := range []int{3, 1} {
+					for _, form := range []int{3, 4, 1} {
 						cfg := c06Config{Versions: vs, Protocols: ps, StreamTypes: ss, Codecs: 1<<0 | 1<<1, Compressions: 1<<0 | 1<<1,
 							Flags: c06FlagsFromIndex(fi), Form: form}
 						if !visit("D-forms", &cfg) {
@@ -1451,7 +1497,9 @@ func c06Enumerate(thorough bool, visit func(family string, cfg *c06Config) bool)
 	entries := c06AllEntries()
 	pairs := c06PairEntries()
 	if !thorough {
-		bases = []c06Config{bases[0], bases[3], bases[6], bases[9], bases[18], bases[29], bases[36], bases[47]}
+		// bases[5]: versions [HTTP/1.1] with every flag absent, so that entries naming HTTP/2 or
+		// HTTP/3 lie outside the listed versions while the flags they depend on are defaulted
+		bases = []c06Config{bases[0], bases[3], bases[5], bases[6], bases[9], bases[18], bases[29], bases[36], bases[47]}
 		pairs = pairs[:0]
 		for i, e := range c06PairEntries() {
 			if i%3 == 0 || e == (c06Entry{TLS: c06False, Certs: c06False}) {
@@ -1472,6 +1520,22 @@ func c06Enumerate(thorough bool, visit func(family string, cfg *c06Config) bool)
 			c06WithCodecList(all[3], []int{c06Text, 2}),
 			c06WithCodecList(all[9], []int{2, c06Text, 1}))
 	}
+	// the bases whose lists are also written in the other two ways: HTTP/1.1 only;
+	// Connect only with one codec and one compression; HTTP/2+3 with stream types,
+	// a codec and two compressions (thorough: every base that writes a list)
+	listForms := make([]bool, len(bases))
+	for bi := range bases {
+		b := &bases[bi]
+		plain := len(b.CodecList) == 0
+		switch {
+		case thorough:
+			listForms[bi] = c06HasLists(b)
+		case plain && b.Versions == 1<<0 && b.Protocols == 0,
+			plain && b.Protocols == 1<<(c06Connect-1) && b.Flags[c06FTLS] == c06False,
+			plain && b.Versions == 1<<1|1<<2 && b.StreamTypes != 0:
+			listForms[bi] = true
+		}
+	}
 	// lists of length 1, every entry
 	for ei, e := range entries {
 		for bi := range bases {
@@ -1487,6 +1551,12 @@ func c06Enumerate(thorough bool, visit func(family string, cfg *c06Config) bool)
 				forms := []int{0}
 				if bi == 0 || ei%7 == 0 {
 					forms = []int{0, 1}
+				}
+				// bases that write a repeated field: also with the lists re-ordered and
+				// with repeated elements (an omitted field of an entry ranges over the
+				// SET the list denotes)
+				if listForms[bi] {
+					forms = append(forms, 3, 4)
 				}
 				for _, form := range forms {
 					cfg.Form = form
@@ -1537,6 +1607,67 @@ func c06Enumerate(thorough bool, visit func(family string, cfg *c06Config) bool)
 							cfg.Exclude = []c06Entry{x1, x2}
 							if !visit("B-four-entries", &cfg) {
 								return
+							}
+						}
+					}
+				}
+			}
+		}
+	}
+
+	// Family F: entries that name values OUTSIDE what the features list (version 2
+	// with versions [1], gRPC with protocols [connect], a bidi stream type with
+	// stream types [unary], ...) and entries that omit them, on every subset of
+	// versions with the flags such an entry depends on absent / true / false: the
+	// omitted fields of an entry range over the features, the named ones do not,
+	// and the support flags keep their documented defaults whatever the lists say.
+	{
+		var fEntries []c06Entry
+		for v := 0; v <= 3; v++ {
+			for p := 0; p <= 3; p++ {
+				for _, st := range []int{0, 1, c06Half, c06Full} {
+					for tls := 0; tls < 3; tls++ {
+						fEntries = append(fEntries, c06Entry{Version: v, Protocol: p, StreamType: st, TLS: tls})
+					}
+				}
+			}
+		}
+		sort.SliceStable(fEntries, func(i, j int) bool { return c06SetFields(fEntries[i]) < c06SetFields(fEntries[j]) })
+		protoChoices := []int{0, 1 << (c06Connect - 1)}
+		streamChoices := []int{0, 1 << 0}
+		// (half-duplex-over-HTTP/1.1, trailers): the two flags act on different entries
+		// (stream type resp. protocol), so the quick tier varies them together
+		halfTrailers := [][2]int{{c06Unset, c06Unset}, {c06True, c06False}}
+		if thorough {
+			protoChoices = []int{0, 1 << (c06Connect - 1), 1 << (c06GRPC - 1), 1<<(c06Connect-1) | 1<<(c06GRPCWeb-1)}
+			streamChoices = []int{0, 1 << 0, 1<<0 | 1<<(c06Half-1) | 1<<(c06Full-1)}
+			halfTrailers = nil
+			for _, half := range []int{c06Unset, c06True, c06False} {
+				for _, tr := range []int{c06Unset, c06True, c06False} {
+					halfTrailers = append(halfTrailers, [2]int{half, tr})
+				}
+			}
+		}
+		for _, e := range fEntries {
+			for vs := 0; vs < 8; vs++ {
+				for _, ps := range protoChoices {
+					for _, ss := range streamChoices {
+						for h2c := 0; h2c < 3; h2c++ {
+							for tls := 0; tls < 3; tls++ {
+								for _, ht := range halfTrailers {
+									for side := 0; side < 2; side++ {
+										cfg := c06Config{Versions: vs, Protocols: ps, StreamTypes: ss, Codecs: 1 << 0, Compressions: 1 << 0}
+										cfg.Flags[c06FH2C], cfg.Flags[c06FTLS], cfg.Flags[c06FHalf], cfg.Flags[c06FTrailers] = h2c, tls, ht[0], ht[1]
+										if side == 0 {
+											cfg.Include = []c06Entry{e}
+										} else {
+											cfg.Exclude = []c06Entry{e}
+										}
+										if !visit("F-entries-outside-features", &cfg) {
+											return
+										}
+									}
+								}
 							}
 						}
 					}
@@ -1703,7 +1834,9 @@ func TestVerifC06(t *testing.T) {
 	defer r.Write()
 	r.Rule = "odometer over Config messages (families: default; A all subsets of versions x protocols x stream types x 3^7 flags; " +
 		"C codec/compression choices; E every ordered codecs list over {proto, json, text}; D reordered/duplicated lists and YAML form; B include/exclude lists of 1, 2 and 4 entries " +
-		"over 7,776 entries on representative feature bases); every configuration is distinct by construction; counted as " +
+		"over 7,776 entries on representative feature bases, the bases that write a repeated field also with every list in descending order + first element repeated and with every element written twice; " +
+		"F one include/exclude entry over version x protocol x {any, unary, half, full} x use_tls on every subset of versions x protocol/stream-type lists x tri-states of the flags the entry depends on, " +
+		"so that entries name values outside the listed ones); a configuration whose lists are written differently must have the outcome of the plainly written one; every configuration is distinct by construction; counted as " +
 		"non-trivial when the reference model yields a case set (not a feature-level contradiction), re-runs of the same " +
 		"configuration in another serialised form are evaluations but not counted as distinct"
 
